@@ -13,7 +13,7 @@ EdDSA   EDP <params…>                                  parameters = table, bas
         EDPKL <bytes> / EDSKL <bytes>                   PublicKey / PrivateKey.SetBytes on a buffer longer than the object: `n x y re-encoding`
         EDSGN <hash> <sk> <nonce> <msg> <oin> <oout>    PrivateKey.Sign then Verify under the key of <sk>: `signature-bytes verdict`; the model
                                                         signs with the nonce on the line (Go derives the same one from randSrc and msg)
-ECDSA   ECP, ECV, ECVB (= ECV; triples built backwards from a chosen R), ECVINF (model refuses the key "infinity"), ECVOC (= ECV; keys off the curve through the exported field: verifyPK refuses them), ECPK, ECPKN, ECSIG, ECSK, ECH (HashToInt), ECR (RecoverFrom)
+ECDSA   ECP, ECV, ECVB (= ECV; triples built backwards from a chosen R), ECVINF (model refuses the key "infinity"), ECVOC (= ECV; keys off the curve through the exported field: verifyPK refuses them), ECPK, ECPKN, ECSIG, ECSK, ECH (HashToInt, the Go rule), ECHF (HashToInt against the FIPS 186-4 leftmost-bits rule), ECR (RecoverFrom)
         ECPKL <bytes>                                   PublicKey.SetBytes on a buffer longer than the key: `n x y re-encoding`
         ECSGN <hash> <sk> <entropy> <k> <msg> <oin> <oout>   Sign (crypto/rand yields <entropy>, which makes the nonce <k>) then Verify: `signature-bytes verdict`
         INV <q> <a>                                     the Euclid inverse of the model, and whether it equals the Fermat one
@@ -220,6 +220,7 @@ def handleEc (P : ECParams) (op : String) (a : List String) : String :=
     let R := P.smul k Q
     showAff R ++ " " ++ boolStr (P.E.beq (P.smulFast k Q) R)
   | "ECH", [b] => toHex (P.hashToInt (parseBytes b))
+  | "ECHF", [b] => toHex (P.hashToIntFIPS (parseBytes b))
   | "ECR", [d, v, r, s, qx, qy] =>
     match P.recover P.smulFast (parseBytes d) (parseHexD v) (parseInt r) (parseInt s) with
     | .error e => e.str
